@@ -97,8 +97,10 @@ def task_rotq(ctx):
         def thunk():
             assume(unit)
             rot = fn(v)
+            # branch label: which side of the code's own case split the path is on (the eps test of the quaternion
+            # construction and, since the repair, the half-space chart v_x < 0)
             inside = bool(abs(1 + vx) < Sym(E.const(eps, E.R)))
-            br = "antipodal" if inside else "generic"
+            br = "antipodal" if inside else ("generic" if bool(vx >= 0) else "generic-flipped-chart")
             R = rot.a[0]
             for i in range(3):
                 for j in range(i, 3):
@@ -112,9 +114,9 @@ def task_rotq(ctx):
             return br
 
         ex = ctx.explore(thunk, name="rotq-" + tag)
-        branches = sorted(p.value for p in ex.paths)
-        if branches != ["antipodal", "generic"]:
-            ctx.error("%s.paths" % tag, "expected the two branches of the eps test, got %r" % (branches,))
+        branches = sorted(set(p.value for p in ex.paths))
+        if "generic" not in branches or len(branches) < 2:
+            ctx.error("%s.paths" % tag, "expected at least two branches of the construction, got %r" % (branches,))
         for p in ex.paths:
             ctx.cover("%s.%s.reachable" % (tag, p.value), p.pc)
         ctx.discharge(ex.all_obligations())
@@ -139,7 +141,7 @@ def task_rotq_jacobian(ctx):
             # (a) implementation-level: dRdv is the Jacobian of the implemented map, v free in R^3 minus {N = 0}
             rot, dRdv = fn(v, True)
             inside = bool(abs(1 + vx) < Sym(E.const(eps, E.R)))
-            br = "antipodal" if inside else "generic"
+            br = "antipodal" if inside else ("generic" if bool(vx >= 0) else "generic-flipped-chart")
             R, J = rot.a[0], dRdv.a[0]
             out = {"br": br, "impl": [], "tan": []}
             for k, vk in enumerate((vx, vy, vz)):
@@ -153,8 +155,9 @@ def task_rotq_jacobian(ctx):
             return out
 
         ex = ctx.explore(thunk, name="rotq-jac-" + tag)
-        if sorted(p.value["br"] for p in ex.paths) != ["antipodal", "generic"]:
-            ctx.error("%s.paths" % tag, "expected two branches")
+        brs = set(p.value["br"] for p in ex.paths)
+        if "generic" not in brs or len(brs) < 2:
+            ctx.error("%s.paths" % tag, "expected at least two branches, got %r" % sorted(brs))
         for p in ex.paths:
             for name, a, b in p.value["impl"]:
                 ctx.prove_eq(name, a, b, pc=p.pc)
